@@ -31,6 +31,7 @@ func init() {
 		c13Rmval(fs)
 		c13Magic(fs)
 		c13StatusMap(fs)
+		c13Wire(fs)
 	}})
 }
 
